@@ -213,6 +213,11 @@ def configs():
                     accept_nan=False))
     out.append(dict(names=[], defaults=[], mins=[], maxs=[], check_hitbounds=False,
                     accept_nan=True))
+    # names with blanks at their ends, two of them differing by such blanks only
+    out.append(dict(names=[" lam", "nu "], defaults=[0.5, 3.0], mins=[-1.0, 0.0],
+                    maxs=[2.0, INF], check_hitbounds=True, accept_nan=False))
+    out.append(dict(names=["q ", "q", "x\t"], defaults=[0.5, 3.0, 0.0], mins=[-1.0, 0.0, -1.0],
+                    maxs=[2.0, 5.0, 1.0], check_hitbounds=False, accept_nan=True))
     # the ways names (and the other arguments) are handed to the constructor: one bare
     # name with bare numbers, a list, a tuple, a pandas Index
     out.append(dict(names=["nu"], defaults=[1.0], mins=[0.0], maxs=[2.0],
@@ -656,16 +661,19 @@ TRANSFORMS = ["Identity", "Logit", "Log", "BoxCox2", "BoxCox1lam", "BoxCox1nu",
               "LogSinh", "Manly"]
 SETUP = {"BoxCox1lam": {"nu": 0.3}, "BoxCox1nu": {"lam": 0.4},
          "LogSinh": {"xmax": 2.0}, "Manly": {"xmax": 3.0}}
-ASSIGN = {"Logit": [("lower", -0.5), ("logdelta", 1.0), ("logdelta", 50.0)],
-          "Log": [("nu", 0.2), ("nu", -1.0), ("nu", 3.0)],
+ASSIGN = {"Logit": [("lower", -0.5), ("logdelta", 1.0), ("logdelta", 50.0),
+                    ("lower", float("-inf"))],
+          # (a parameter without an upper bound may be set to infinity)
+          "Log": [("nu", 0.2), ("nu", -1.0), ("nu", 3.0), ("nu", float("inf"))],
           "BoxCox2": [("nu", 0.1), ("lam", 0.0), ("lam", 7.0), ("lam", 3e-11)],
           "BoxCox1lam": [("lam", 0.5), ("lam", -9.0), ("nu", 0.7)],
           "BoxCox1nu": [("nu", 0.25), ("nu", -3.0), ("lam", 0.0)],
           "BoxCox2sym": [("nu", 0.5), ("lam", 0.2), ("lam", 5.0)],
           "YeoJohnson": [("nu", -0.3), ("scale", 2.0), ("lam", 2.0), ("lam", 2.000001),
                          ("lam", 1e-9)],
-          "Reciprocal": [("nu", 0.5), ("nu", -1.0), ("nu", 2.0)],
-          "Sinh": [("nu", 0.1), ("scale", 0.5), ("scale", -1.0)],
+          "Reciprocal": [("nu", 0.5), ("nu", -1.0), ("nu", 2.0), ("nu", float("inf"))],
+          "Sinh": [("nu", 0.1), ("scale", 0.5), ("scale", -1.0), ("nu", float("inf")),
+                   ("nu", float("-inf"))],
           "LogSinh": [("loga", -2.0), ("logb", 0.3), ("loga", 1.0)],
           "Manly": [("lam", 0.5), ("lam", -9.0), ("xmax", 4.0)]}
 READONLY = ["forward", "backward", "jacobian", "params_sample", "params_logprior",
